@@ -8,17 +8,19 @@ namespace Rtp.Proofs.Wire
 open Rtp Rtp.Model Rtp.Spec.Wire Rtp.Pred.C03
 open Rtp.Pred.C01 (canonP canonH)
 
-/-- the public accessors of a header decoded from a well-formed image (no reserved id) and the
-    standalone view of the matching form on the same block bytes report the same ids and the same
-    value for every id -/
+/-- the public accessors of a header decoded from a well-formed image (no reserved id, zero
+    appbits) and the standalone view of the matching form on the same block bytes report the same
+    ids and the same value for every id -/
 theorem views_agree (w : Wire) (b : ExtBlock) (hext : w.ext = some b) (hw : w.WF = true) (hr : w.reserved = false)
-    (r : Header) (k : ViewKind) (hk : formMatches k b = true) (hnl : k ≠ .raw) :
+    (ha : w.appbits = false) (r : Header) (k : ViewKind) (hk : formMatches k b = true) (hnl : k ≠ .raw) :
     ∃ h n, hdrUnmarshal r w.encode = .ok (h, n) ∧
       viewGetIDs k b.encode = .ok (getExtensionIDs h) ∧
       ∀ q, viewGet k b.encode q = .ok (getExtension h q) := by
-  have hok := wireOk_of_WF w hw
+  have hok := wireOk_of_WF w hw ha
   have hbw : b.WF = true := by
     simp only [Wire.WF, Bool.and_eq_true, hext] at hw; exact hw.1.2
+  have hba : b.appbits = false := by simpa [Wire.appbits, hext] using ha
+  have hbo := blockOk_of_WF b hbw hba
   refine ⟨_, _, hdrUnmarshal_encode w r hok, ?_, ?_⟩
   all_goals
     have hx : (hdrOf r w).extension = true := by simp [hdrOf, Wire.toPacket, hext]
@@ -26,38 +28,35 @@ theorem views_agree (w : Wire) (b : ExtBlock) (hext : w.ext = some b) (hw : w.WF
     have h4 := encode_length_pos b
     have hlt : ¬ b.encode.length < 4 := by omega
   · cases b with
-    | oneByte items =>
+    | oneByte items stop =>
       cases k <;> simp only [formMatches] at hk <;> try (exact absurd hk (by decide))
-      have hok1 : items.all Item.ok1 = true := by
-        have := blockOk_of_WF _ hbw
-        simp only [blockOk, Bool.and_eq_true] at this; exact this.1
-      simp only [viewGetIDs, hlt, ↓reduceIte, drop4_encode, ExtBlock.body, oneByteIDs_body items _ hok1,
+      have hs : stop = none := by simpa [Wire.reserved, hext, ExtBlock.reserved] using hr
+      subst hs
+      simp only [blockOk, Bool.and_eq_true] at hbo
+      simp only [viewGetIDs, hlt, ↓reduceIte, drop4_encode, ExtBlock.body, stopBytes, List.append_nil,
+        oneByteIDs_body items _ hbo.1.1 (oneByteIDs_pads _),
         getExtensionIDs, hx, he, ExtBlock.elements, Bool.not_true, Bool.false_eq_true]
-    | twoByte items =>
+    | twoByte a items =>
       cases k <;> simp only [formMatches] at hk <;> try (exact absurd hk (by decide))
-      have hok2 : items.all Item.ok2 = true := by
-        have := blockOk_of_WF _ hbw
-        simp only [blockOk, Bool.and_eq_true] at this; exact this.1
-      simp only [viewGetIDs, hlt, ↓reduceIte, drop4_encode, ExtBlock.body, twoByteIDs_body items _ hok2,
+      simp only [blockOk, Bool.and_eq_true] at hbo
+      simp only [viewGetIDs, hlt, ↓reduceIte, drop4_encode, ExtBlock.body, twoByteIDs_body items _ hbo.1.2,
         getExtensionIDs, hx, he, ExtBlock.elements, Bool.not_true, Bool.false_eq_true]
     | legacy p ws =>
       cases k <;> simp only [formMatches] at hk <;> first | exact absurd hk (by decide) | exact absurd rfl hnl
   · intro q
     cases b with
-    | oneByte items =>
+    | oneByte items stop =>
       cases k <;> simp only [formMatches] at hk <;> try (exact absurd hk (by decide))
-      have hok1 : items.all Item.ok1 = true := by
-        have := blockOk_of_WF _ hbw
-        simp only [blockOk, Bool.and_eq_true] at this; exact this.1
-      have hnr : items.any Item.isReserved = false := by simpa [Wire.reserved, hext, ExtBlock.reserved] using hr
-      simp only [viewGet, drop4_encode, ExtBlock.body, oneByteGet_body items _ q hok1,
-        getExtension, hx, he, ExtBlock.elements, Bool.not_true, Bool.false_eq_true, ↓reduceIte, elems1_noReserved _ hnr]
-    | twoByte items =>
+      have hs : stop = none := by simpa [Wire.reserved, hext, ExtBlock.reserved] using hr
+      subst hs
+      simp only [blockOk, Bool.and_eq_true] at hbo
+      simp only [viewGet, drop4_encode, ExtBlock.body, stopBytes, List.append_nil, oneByteGet_body items _ q hbo.1.1,
+        getExtension, hx, he, ExtBlock.elements, Bool.not_true, Bool.false_eq_true, ↓reduceIte, oneByteGet_pads]
+      cases (elems items).find? (·.id == q) <;> rfl
+    | twoByte a items =>
       cases k <;> simp only [formMatches] at hk <;> try (exact absurd hk (by decide))
-      have hok2 : items.all Item.ok2 = true := by
-        have := blockOk_of_WF _ hbw
-        simp only [blockOk, Bool.and_eq_true] at this; exact this.1
-      simp only [viewGet, drop4_encode, ExtBlock.body, twoByteGet_body items _ q hok2,
+      simp only [blockOk, Bool.and_eq_true] at hbo
+      simp only [viewGet, drop4_encode, ExtBlock.body, twoByteGet_body items _ q hbo.1.2,
         getExtension, hx, he, ExtBlock.elements, Bool.not_true, Bool.false_eq_true, ↓reduceIte]
     | legacy p ws =>
       cases k <;> simp only [formMatches] at hk <;> first | exact absurd hk (by decide) | exact absurd rfl hnl
@@ -73,8 +72,8 @@ theorem hdrGetsOK_map (ext : Option ExtBlock) (h : Header) (qs : List UInt8)
     | none => rfl
     | some v => simp [H q v he]
 
-/-- the public accessors on the header decoded from a description -/
-theorem accessors_hdrOf (w : Wire) (r : Header) (qs : List UInt8) (hr : w.reserved = false) :
+/-- the public accessors on the header decoded from a description (reserved id or not) -/
+theorem accessors_hdrOf (w : Wire) (r : Header) (qs : List UInt8) :
     getExtensionIDs (hdrOf r w) = (match w.ext with | some b => b.ids | none => []) ∧
     hdrGetsOK w.ext qs (qs.map (getExtension (hdrOf r w))) = true := by
   cases hx : w.ext with
@@ -104,10 +103,10 @@ theorem accessors_hdrOf (w : Wire) (r : Header) (qs : List UInt8) (hr : w.reserv
           simp only [Bool.not_eq_true'] at hm
           have hsub : (b.elements.any (·.id == q)) = false := by
             cases b with
-            | oneByte items =>
-              have hnr : items.any Item.isReserved = false := by simpa [Wire.reserved, hx, ExtBlock.reserved] using hr
-              simpa [ExtBlock.mentions, ExtBlock.elements, elems1_noReserved _ hnr] using hm
-            | twoByte items => simpa [ExtBlock.mentions, ExtBlock.elements] using hm
+            | oneByte items stop =>
+              simp only [ExtBlock.mentions, Bool.or_eq_false_iff] at hm
+              simpa [ExtBlock.elements] using hm.2
+            | twoByte a items => simpa [ExtBlock.mentions, ExtBlock.elements] using hm
             | legacy p ws =>
               have : q ≠ 0 := by simpa [ExtBlock.mentions] using hm
               simp [ExtBlock.elements, Ne.symm this]
